@@ -10,17 +10,18 @@ HARNESSES = {
 
 def _stages(tier):
     # A case runs up to 32 threads, so the stages are a few single-process shards (distinct case ranges through --base) instead of
-    # 16 workers: at most 5 processes run side by side, each mostly in its single-threaded sequential-baseline phase.
+    # 16 workers x 32 threads: at most 5 processes run side by side, each mostly in its single-threaded run-alone phase.
+    # Measured (16 shared cores): tsan 15 cases x 2 reps = 80 s; opt 100 cases x 8 reps = 140 s.
     if tier == 'thorough':
-        tsan = [dict(name='tsan-%d' % i, harness='h_mt', flavour='tsan', cases=60, single_process=True, idle_timeout=600,
+        tsan = [dict(name='tsan-%d' % i, harness='h_mt', flavour='tsan', cases=220, single_process=True, idle_timeout=900,
                      args={'base': 1000 * i, 'reps': 4}) for i in range(4)]
-        opt = [dict(name='opt-%d' % i, harness='h_mt', flavour='opt', cases=400, single_process=True, idle_timeout=600,
-                    args={'base': 100000 + 1000 * i, 'reps': 20}) for i in range(2)]
+        opt = [dict(name='opt-%d' % i, harness='h_mt', flavour='opt', cases=1000, single_process=True, idle_timeout=900,
+                    args={'base': 100000 + 10000 * i, 'reps': 12}) for i in range(2)]
         return tsan + opt
-    tsan = [dict(name='tsan-%d' % i, harness='h_mt', flavour='tsan', cases=10, single_process=True, idle_timeout=600,
-                 args={'base': 1000 * i, 'reps': 2}) for i in range(3)]
-    opt = [dict(name='opt-%d' % i, harness='h_mt', flavour='opt', cases=50, single_process=True, idle_timeout=600,
-                args={'base': 100000 + 1000 * i, 'reps': 8}) for i in range(2)]
+    tsan = [dict(name='tsan-%d' % i, harness='h_mt', flavour='tsan', cases=20, single_process=True, idle_timeout=900,
+                 args={'base': 1000 * i, 'reps': 3}) for i in range(3)]
+    opt = [dict(name='opt-%d' % i, harness='h_mt', flavour='opt', cases=60, single_process=True, idle_timeout=900,
+                args={'base': 100000 + 10000 * i, 'reps': 8}) for i in range(2)]
     return tsan + opt
 
 
